@@ -314,6 +314,9 @@ def _run(chk: Check, tier: str, P: dict, rnd, work, pool, t_start):
             # --cache-solver: the core of an unsat query must not answer a satisfiable one, in either completion order
             ("panic(unsat),panic(sat_valid)", "cache-solver", None, "C0<B1"),
             ("panic(sat_valid),panic(unsat)", "cache-solver", None, "C1<B0"),
+            # an empty core `()` names no constraint: it must not answer the next (satisfiable) query either
+            ("panic(unsat_nocore),panic(sat_valid)", "cache-solver", None, "C0<B1"),
+            ("panic(unsat_nocore),failflag(sat_valid)", "cache-solver", None, "C0<B1"),
         ],
         "gencachesat": [
             ("success,panic(unsat),panic(sat_valid)", "cache-solver", None, "C1<B2"),
